@@ -6,6 +6,8 @@ CONSTANTS
   MaxOps = 3
   Notifs <- NotifsA
   MaxNotif = 1
+  MaxDup = 0
+  DistinctPatterns = FALSE
   Bug = "cmdOnly"
   OneQueryPerCmd = TRUE
 INVARIANT TypeOK
